@@ -145,7 +145,7 @@ def float_shim_real(x=0.0):
 
 
 def round_shim(x, nd=None):
-    if isinstance(x, (SymInt, SymQ)):
+    if isinstance(x, (SymInt, SymQ, SymReal)):
         return x.__round__(nd) if nd is not None else x.__round__()
     if nd is None:
         return builtins.round(x)
@@ -344,8 +344,8 @@ class _WorkPrec:
 def _inexact_floor(q, which):
     """floor()/ceil() of an mp value that carries a rounding error bound e: the computed value v satisfies
     |v - n/d| <= e, so the result is any integer k with floor(n/d - e) <= k <= floor(n/d + e) (resp. ceil).
-    The choice is left to the solver and the path is marked rounding-dependent: a counterexample found on
-    it is believed only when it replays on the real code."""
+    The choice is left to the solver; a counterexample in which it differs from the exact floor is
+    rounding-dependent and is believed only when it replays on the real code."""
     from . import engine
     r = engine.cur()
     e = Fraction(q.err)
@@ -359,8 +359,8 @@ def _inexact_floor(q, which):
         r.assume(z3.And(k * D <= hi, (k + 1) * D > lo))
     else:
         r.assume(z3.And(k * D >= lo, (k - 1) * D < hi))
-    r.approx = "%s() of a value with rounding error bound %s" % (which, builtins.float(e))
-    PREC.flag("%s-inexact" % which, "%s() of value with error bound %s" % (which, builtins.float(e)))
+    exact = q.floor_int().t if which == "floor" else q.ceil_int().t
+    r.rounding_dependent(k != exact)
     return SymQ(k, 1, "mp", None if q.bound is None else q.bound + 1, 0)
 
 
